@@ -229,6 +229,41 @@ def c02(scn):
 
 # --------------------------------------------------------------------------- C03
 
+def _c03_one(fails, g, n, acc, src, area, agree, where):
+    if agree != ["1"]:
+        fails.append(("overloads_agree", where))
+    if any(math.isnan(w) or math.isinf(w) for row in g.rweight for w in row):
+        return  # C05's business
+    F = Fraction
+    # recurrence in exact arithmetic with a rounding allowance
+    inflow = [F(0)] * n
+    mag = [F(0)] * n
+    for d in range(n):
+        for r, w in zip(g.recv[d], g.rweight[d]):
+            if r != d:
+                inflow[r] += F(acc[d]) * F(w)
+                mag[r] += abs(F(acc[d]) * F(w))
+    for i in range(n):
+        want = F(src[i]) * F(area[i]) + inflow[i]
+        tol = F(EPS) * (n + 2) * (abs(F(src[i]) * F(area[i])) + mag[i]) + F(5e-324)
+        if abs(F(acc[i]) - want) > tol:
+            fails.append(("recurrence", "%snode %d: acc %r vs %r" % (where, i, acc[i], float(want))))
+        if all(s_ * a_ >= 0 for s_, a_ in zip(src, area)) and F(acc[i]) < F(src[i]) * F(area[i]) - tol:
+            fails.append(("ge_local", "%snode %d" % (where, i)))
+    # conservation: terminal nodes collect everything
+    bad = [i for i in range(n) if not (len(g.recv[i]) == 1 and g.recv[i][0] == i)
+           and abs(sum(F(w) for w in g.rweight[i]) - 1) > F(EPS) * 4 * len(g.rweight[i])]
+    if bad:
+        fails.append(("conservation", "%sflow fractions of node %d sum to %r, not one" % (where, bad[0], float(sum(F(w) for w in g.rweight[bad[0]])))))
+        return
+    term = [i for i in range(n) if g.recv[i] == [i]]
+    tot = sum(F(acc[t]) for t in term)
+    want = sum(F(src[i]) * F(area[i]) for i in range(n))
+    scale = sum(abs(F(src[i]) * F(area[i])) for i in range(n))
+    if abs(tot - want) > F(EPS) * (n + 2) * n * scale + F(5e-324):
+        fails.append(("conservation", "%sterminal sum %r vs integral %r" % (where, float(tot), float(want))))
+
+
 def c03(scn):
     fails = []
     topo = Topo(scn)
@@ -237,42 +272,19 @@ def c03(scn):
     for call in scn.calls:
         if call.cmd == "update" and call.O.get("update") == ["ok"]:
             last = call
-        if call.cmd in ("acc",) and last is not None and "acc" in call.O:
+        if last is None:
+            continue
+        if call.cmd == "acc" and "acc" in call.O:
             g = GraphView(last, n)
-            if not g.ok:
-                continue
-            acc = [unhx(x) for x in call.O["acc"]]
-            src = [unhx(x) for x in call.i("src")]
-            area = [unhx(x) for x in call.i("area")]
-            if call.O.get("acc_overloads_agree") != ["1"]:
-                fails.append(("overloads_agree", "call %d" % call.li))
-            if any(math.isnan(w) or math.isinf(w) for row in g.rweight for w in row):
-                continue  # C05's business
-            F = Fraction
-            # recurrence in exact arithmetic with a rounding allowance
-            inflow = [F(0)] * n
-            mag = [F(0)] * n
-            for d in range(n):
-                for r, w in zip(g.recv[d], g.rweight[d]):
-                    if r != d:
-                        inflow[r] += F(acc[d]) * F(w)
-                        mag[r] += abs(F(acc[d]) * F(w))
-            for i in range(n):
-                want = F(src[i]) * F(area[i]) + inflow[i]
-                tol = F(EPS) * (n + 2) * (abs(F(src[i]) * F(area[i])) + mag[i]) + F(5e-324)
-                if abs(F(acc[i]) - want) > tol:
-                    fails.append(("recurrence", "node %d: acc %r vs %r" % (i, acc[i], float(want))))
-                if all(s_ * a_ >= 0 for s_, a_ in zip(src, area)) and F(acc[i]) < F(src[i]) * F(area[i]) - tol:
-                    fails.append(("ge_local", "node %d" % i))
-            # conservation: terminal nodes collect everything (when weights sum to one)
-            sums_ok = all(len(g.recv[i]) == 1 and g.recv[i][0] == i or abs(sum(F(w) for w in g.rweight[i]) - 1) <= F(EPS) * 4 * len(g.rweight[i]) for i in range(n))
-            if sums_ok:
-                term = [i for i in range(n) if g.recv[i] == [i]]
-                tot = sum(F(acc[t]) for t in term)
-                want = sum(F(src[i]) * F(area[i]) for i in range(n))
-                scale = sum(abs(F(src[i]) * F(area[i])) for i in range(n))
-                if abs(tot - want) > F(EPS) * (n + 2) * n * scale + F(5e-324):
-                    fails.append(("conservation", "terminal sum %r vs integral %r" % (float(tot), float(want))))
+            if g.ok:
+                _c03_one(fails, g, n, [unhx(x) for x in call.O["acc"]], [unhx(x) for x in call.i("src")],
+                         [unhx(x) for x in call.i("area")], call.O.get("acc_overloads_agree"), "")
+        elif call.cmd == "snapcall" and len(call.toks) > 2 and call.toks[2] == "acc":
+            pre = "snap:%s:" % call.toks[1]
+            g = GraphView(last, n, pre)
+            if g.ok and (pre + "acc") in call.O and call.i(pre + "src") is not None:
+                _c03_one(fails, g, n, [unhx(x) for x in call.O[pre + "acc"]], [unhx(x) for x in call.i(pre + "src")],
+                         [unhx(x) for x in call.i(pre + "area")], call.O.get(pre + "acc_overloads_agree"), "snapshot %s: " % call.toks[1])
     return fails
 
 
@@ -450,14 +462,17 @@ def c19(scn):
     for call in scn.calls:
         if call.cmd == "update" and call.O.get("update") == ["ok"]:
             last = call
-        if call.cmd == "basins" and last is not None and "basins" in call.O:
+        pre = ""
+        if call.cmd == "snapcall" and len(call.toks) > 2 and call.toks[2] == "basins":
+            pre = "snap:%s:" % call.toks[1]
+        if (call.cmd == "basins" or pre) and last is not None and (pre + "basins") in call.O:
             mask, seeds, ops, zin = env_of(last, n)
-            g = GraphView(last, n)
+            g = GraphView(last, n, pre)
             if not g.ok or any(c != 1 for c in g.rcount):
                 continue
-            lab = [int(x) for x in call.O["basins"]]
-            outlets = [int(x) for x in call.O["outlets"]]
-            pits = [int(x) for x in call.O["pits"]]
+            lab = [int(x) for x in call.O[pre + "basins"]]
+            outlets = [int(x) for x in call.O[pre + "outlets"]]
+            pits = [int(x) for x in call.O[pre + "pits"]]
             base = set(seeds)
             want_outlets = [i for i in g.dfs if g.recv[i] == [i] and not mask[i]]
             if outlets != want_outlets:
@@ -615,14 +630,14 @@ def c07(scn):
                 if sorted(bits(unhx(x)) for x in vals) != sorted(bits(d) for _, d in spec):
                     fails.append(("distances", "node %d" % i))
                 seen.setdefault(i, {})["d"] = [bits(unhx(x)) for x in vals]
-            elif kind == "s":
+            elif kind in ("s", "so"):
                 tr = [(int(vals[k]), bits(unhx(vals[k + 1])), int(vals[k + 2])) for k in range(0, len(vals), 3)]
                 if sorted((a, b) for a, b, _ in tr) != key:
                     fails.append(("neighbors", "node %d: %s vs %s" % (i, [(a) for a, _, _ in tr], [j for j, _ in spec])))
                 for a, _, s in tr:
                     if 0 <= a < g.n and s != st[a]:
                         fails.append(("neighbor_status", "node %d neighbour %d status %d vs %d" % (i, a, s, st[a])))
-                seen.setdefault(i, {})["s"] = tr
+                seen.setdefault(i, {})[kind] = tr
         if c.cmd == "qr" and len(c.toks) == 3 and g.kind == "raster":
             kind, i = c.toks[1], int(c.toks[2])
             out = c.O.get("qr")
@@ -635,17 +650,17 @@ def c07(scn):
                 if sorted(r * g.cols + cc for r, cc in pr) != sorted(j for j, _ in spec) or any(cc >= g.cols or r >= g.rows for r, cc in pr):
                     fails.append(("rowcol_indices", "node %d: %s" % (i, pr)))
                 seen.setdefault(i, {})["rc"] = [r * g.cols + cc for r, cc in pr]
-            elif kind == "rs":
+            elif kind in ("rs", "rso"):
                 tr = [(int(vals[k]), int(vals[k + 1]), int(vals[k + 2]), bits(unhx(vals[k + 3])), int(vals[k + 4])) for k in range(0, len(vals), 5)]
                 if sorted((a, d) for a, _, _, d, _ in tr) != sorted((j, bits(d)) for j, d in spec):
                     fails.append(("raster_neighbors", "node %d" % i))
                 for a, r, cc, d, s in tr:
                     if a != r * g.cols + cc or (0 <= a < g.n and s != st[a]):
                         fails.append(("raster_neighbor_fields", "node %d" % i))
-                seen.setdefault(i, {})["rs"] = [a for a, *_ in tr]
+                seen.setdefault(i, {})[kind] = [a for a, *_ in tr]
     # accessors are projections of one list
     for i, d in seen.items():
-        lists = [d[k] if k in ("i", "rc", "rs") else ([a for a, _, _ in d[k]] if k == "s" else None) for k in d]
+        lists = [d[k] if k in ("i", "rc", "rs", "rso") else ([a for a, _, _ in d[k]] if k in ("s", "so") else None) for k in d]
         lists = [l for l in lists if l is not None]
         if any(l != lists[0] for l in lists):
             fails.append(("accessors_agree", "node %d: %s" % (i, lists)))
@@ -822,3 +837,57 @@ def c20(scn):
             if c.O.get("input_unchanged") != ["1"]:
                 fails.append(("input_unchanged", "ops %s: the caller's elevation array was written" % (ops,)))
     return fails
+
+
+# ----------------------------------------------------------------------------- C16
+
+GRAPH_SECS = ("rcount", "recv", "rdist", "rweight", "dcount", "donors", "dfs", "bfs", "levels")
+
+
+def c16(scn):
+    """snapshot tables == tables of a separately built graph running only the prefix (printed by
+    the harness as pfx:<name>:<section>), elevation snapshot == prefix elevation, accumulate /
+    basins on the snapshot == on the prefix graph, mutators refused"""
+    fails = []
+    for c in scn.calls:
+        if c.cmd == "update" and c.O.get("update") == ["ok"]:
+            ops = c.i("ops", [])
+            for o in ops:
+                f = o.split(":")
+                if f[0] != "snap":
+                    continue
+                nm = f[1]
+                if "pfx_err:" + nm in c.O:
+                    fails.append(("prefix_graph_builds", "prefix of snapshot %s: %s" % (nm, c.O["pfx_err:" + nm])))
+                    continue
+                if "g" in f[2]:
+                    for sec in GRAPH_SECS:
+                        a, b = c.O.get("snap:%s:%s" % (nm, sec)), c.O.get("pfx:%s:%s" % (nm, sec))
+                        if a is None or b is None:
+                            fails.append(("snapshot_present", "snapshot %s section %s missing (snap=%s, prefix=%s)" % (nm, sec, a is not None, b is not None)))
+                        elif a != b:
+                            fails.append(("snapshot_eq_prefix", "ops %s snapshot %s: %s = %s but the prefix graph has %s" % (" ".join(ops), nm, sec, " ".join(a)[:120], " ".join(b)[:120])))
+                            break
+                if "e" in f[2]:
+                    a, b = c.O.get("esnap:" + nm), c.O.get("pfxe:" + nm)
+                    if a is None or b is None or a != b:
+                        fails.append(("elevation_snapshot_eq", "ops %s elevation snapshot %s differs from the elevation after the prefix" % (" ".join(ops), nm)))
+        elif c.cmd == "snapcall" and len(c.toks) >= 3:
+            nm, what = c.toks[1], c.toks[2]
+            if what == "acc":
+                a, b = c.O.get("snap:%s:acc" % nm), c.O.get("pfx:%s:acc" % nm)
+                if a is None or b is None or a != b:
+                    fails.append(("snapshot_accumulate", "accumulate on snapshot %s differs from accumulate on the prefix graph" % nm))
+                if c.O.get("snap:%s:acc_overloads_agree" % nm) != ["1"]:
+                    fails.append(("snapshot_accumulate", "accumulate overloads disagree on snapshot %s" % nm))
+            elif what == "basins":
+                for sec in ("basins", "outlets", "pits"):
+                    a, b = c.O.get("snap:%s:%s" % (nm, sec)), c.O.get("pfx:%s:%s" % (nm, sec))
+                    if a is None or b is None or a != b:
+                        fails.append(("snapshot_basins", "%s on snapshot %s = %s, on the prefix graph %s" % (sec, nm, a and " ".join(a)[:100], b and " ".join(b)[:100])))
+                        break
+            elif what in ("set_mask", "set_base", "update"):
+                key = "snap_update" if what == "update" else what
+                if (c.O.get(key) or ["?"])[0] != "err":
+                    fails.append(("snapshot_mutators_refused", "%s on snapshot graph %s was not refused: %s" % (what, nm, c.O.get(key))))
+    return fails[:20]
